@@ -42,13 +42,9 @@ def newIndex (m : KmerMap) (maxocc : Int) (refs : List Bytes) : Index :=
 /-- `Len` -/
 def Index.len (idx : Index) : Nat := idx.length
 
-/-- insertion in a list sorted by address rank -/
-def insRank (rank : Nat → Nat) (x : Nat) : List Nat → List Nat
-  | [] => [x]
-  | y :: t => if rank x ≤ rank y then x :: y :: t else y :: insRank rank x t
-
-/-- `sort.Slice(seqs, address order)`: equal ranks are equal pointers, so every sort gives this list -/
-def sortRank (rank : Nat → Nat) (l : List Nat) : List Nat := l.foldr (insRank rank) []
+/-- `sort.Slice(seqs, address order)`: equal ranks are equal pointers, so every sort gives this list (merge
+sort of the Lean core library) -/
+def sortRank (rank : Nat → Nat) (l : List Nat) : List Nat := l.mergeSort fun a b => decide (rank a ≤ rank b)
 
 /-- Go map write on `KmerMatch` -/
 def matchSet : List (Nat × Nat) → Nat → Nat → List (Nat × Nat)
